@@ -130,7 +130,7 @@ var alphaNeg = []float64{-1, 1}
 // negative weights (Bellman-Ford, Floyd-Warshall, Johnson; DijkstraAllPaths
 // for its documented panic): 4-node digraphs with each ordered pair in
 // {absent,-1,1}; all 3^12 graphs in the thorough tier, the graphs with index
-// congruent to 3 modulo 5 in the quick tier; one rotating container/ID-map
+// congruent to 3 modulo 7 in the quick tier; one rotating container/ID-map
 // combination per graph.
 func genDg4Neg(g *vlib.G) {
 	ps := pairs(4, true)
@@ -145,7 +145,7 @@ func genDg4Neg(g *vlib.G) {
 			nneg := 0
 			odometer(tail, radix, func(tidx int, tl []int) bool {
 				gi := bidx*81 + tidx
-				if !thorough && gi%5 != 3 {
+				if !thorough && gi%7 != 3 {
 					return true
 				}
 				copy(digits[head:], tl)
